@@ -22,6 +22,16 @@ claimed = {
    text="Decides structural necessary conditions of fail-stop encoding, not the behaviour: (R1) every call that can relay a codec error consumes it, (R2) every return of the kind dispatch reachable for an unsupported kind yields a provably non-nil error, (R3) the encode path contains no unguarded panic site (single-value assertion, Interface() on a struct field, explicit panic), (R4) the list header count and the element loop bound are the same term. A tree violating any of these has a concrete value on which encoding succeeds with wrong bytes or panics.",
    design_ref="DESIGN.md §3 C13",
    note="Does not decide that bytes emitted for supported values are right (C01/C02), nor panics inside package reflect for exotic map keys."),
+ "C07": dict(
+   technique="abstract interpretation of the int/long codecs over interval sets (go/ssa) against a frozen Hessian 2.0 form table; conversion lossiness in the kind dispatch",
+   text="Decides structural necessary conditions, not the behaviour: the input sets of the encoder's forms are computed symbolically for all 2^32 / 2^64 inputs and must equal the specification's shortest-form ranges; first-octet arithmetic, big-endian octet windows, decoder tag sets and payload counts must agree with the table and with each other; every integer conversion in the kind dispatch must be value-preserving on the values reaching it (or a same-width reinterpretation the field decoder inverts). Bit-exact sign extension in the decoder is NOT decided (needs a bit-vector solver).",
+   design_ref="DESIGN.md §3 C07, §2.2, §3.0",
+   note="The frozen table (hlint/spec.go) is trusted; reflect.Value.Int()/Uint() are assumed to return values within the range of the receiver's Kind."),
+ "C08": dict(
+   technique="abstract interpretation of encodeDouble/decodeDoubleValue over interval sets on int64(v) under the integrality guard, against the frozen form table",
+   text="Decides structural necessary conditions, not the behaviour: encodeDouble has no feasible error return (totality); under float64(int64(v))==v the compact forms are selected exactly on {0},{1},[-128,127],[-32768,32767]; octets are windows of int64(v)/Float32bits/Float64bits; decoder tag sets and payloads agree with the table and the encoder. Floating-point exactness of the float32 test and NaN handling are NOT decided.",
+   design_ref="DESIGN.md §3 C08",
+   note="IEEE conversion semantics are not modelled; the integrality and float32 guards are recognised by their term shape."),
 }
 
 checks = []
